@@ -1337,6 +1337,8 @@ class Interp:
                                 vv = cell.v
                                 if loc[0] == 'deref':
                                     vv = self.load(o.state, vv.cell, vv.path)
+                                for i_ in (loc[2] if len(loc) > 2 else ()):
+                                    vv = vv.xs[i_]
                                 if isinstance(vv, Sym) and vv.term == vt and vv.wr and all(isinstance(k, tuple) and len(k) == 2 and k[0] == '#elem' for k in vv.wr):
                                     # element writes into the loop-carried vector: (index term, value term) pairs
                                     cur[vt] = ('upd*', vt, tuple((k[1], self.to_term(o.state, vv.over[k])) for k in vv.wr))
@@ -1526,14 +1528,18 @@ class Interp:
                 self._note_vec_head(st, tgt, newv, ('deref', l))
         return mapping
 
-    def _note_vec_head(self, st, before, after, loc):
-        """a vector-like object (list under construction, symbolic sequence) replaced by a head variable: remember its
-        entry value and where it lives, so that its value at the back edges can be read (loopsum closed forms)"""
+    def _note_vec_head(self, st, before, after, loc, path=()):
+        """a vector-like object (list under construction, symbolic sequence) replaced by a head variable - directly in a
+        local / behind a reference, or as a field of an aggregate there: remember its entry value and where it lives,
+        so that its value at the back edges can be read (loopsum closed forms)"""
         if isinstance(after, Sym) and isinstance(after.term, tuple) and after.term[0] == 'var' and isinstance(before, (ListV, Sym)):
             try:
-                self._vec_heads.append((after.term, self.to_term(st, before), loc))
+                self._vec_heads.append((after.term, self.to_term(st, before), loc + (path,)))
             except Exception:
                 pass
+        elif isinstance(before, (Adt, Tup)) and isinstance(after, (Adt, Tup)) and len(before.xs) == len(after.xs) and len(path) < 3:
+            for i, (b, a) in enumerate(zip(before.xs, after.xs)):
+                self._note_vec_head(st, b, a, loc, path + (i,))
 
     def current_values(self, st, fr, hav, mapping):
         """map each head variable to its value at the back edge (same traversal order as havoc)"""
